@@ -64,6 +64,8 @@ func main() {
 		cmdExplore(os.Args[2:])
 	case "run":
 		cmdRun(os.Args[2:])
+	case "native":
+		cmdNative(os.Args[2:])
 	case "selftest":
 		cmdSelftest(os.Args[2:])
 	default:
@@ -144,3 +146,44 @@ func printResult(res *interp.Result) {
 
 
 func cmdSelftest(args []string) { fmt.Println("not yet") }
+
+// native <Harness> [int args] [name=value ...]: run a harness natively on a
+// hand-given model (debugging aid). Strings are given as name=text.
+func cmdNative(args []string) {
+	_, pkg, err := loadProgram(false)
+	if err != nil {
+		fmt.Fprintln(os.Stderr, err)
+		os.Exit(2)
+	}
+	c := replayCase{ID: "n", Harness: args[0], Model: map[string]uint64{}, Choices: map[string]int{}, Kind: "sample"}
+	for _, a := range args[1:] {
+		if k := strings.Index(a, "="); k > 0 {
+			name, val := a[:k], a[k+1:]
+			if strings.HasPrefix(name, "choice:") {
+				n, _ := strconv.Atoi(val)
+				c.Choices[name[7:]] = n
+				continue
+			}
+			if n, err := strconv.ParseInt(val, 0, 64); err == nil && !strings.HasPrefix(name, "s:") {
+				c.Model[name] = uint64(n)
+				continue
+			}
+			name = strings.TrimPrefix(name, "s:")
+			uq, err := strconv.Unquote(`"` + val + `"`)
+			if err != nil {
+				uq = val
+			}
+			for i := 0; i < len(uq); i++ {
+				c.Model[fmt.Sprintf("%s__%d", name, i)] = uint64(uq[i])
+			}
+			continue
+		}
+		n, _ := strconv.ParseInt(a, 10, 64)
+		if a == "true" {
+			n = 1
+		}
+		c.Args = append(c.Args, n)
+	}
+	_, raw, _ := nativeReplay(pkg, []replayCase{c}, 5*time.Minute)
+	fmt.Println(raw)
+}
